@@ -249,13 +249,78 @@ pub open spec fn tell_log_ok(l0: Seq<Eff>, l1: Seq<Eff>, pid: int) -> bool {
 pub open spec fn env_view(pid: int, req: Option<int>, mbx: int) -> MsgView { MsgView::Envelope { pid, req, holds: mbx } }
 
 /// what one call of dead_letter::record::<M>(identity, reason, op) appends to the log
-#[cfg(feature = "test-utils")]
+#[cfg(all(feature = "test-utils", not(feature = "vx-nodl")))]
 pub open spec fn dl_log<M>(l: Seq<Eff>, identity: Identity, reason: DeadLetterReason, op: Seq<char>) -> Seq<Eff> {
     l.push(Eff::FetchAdd(cell_DEAD_LETTER_COUNT(), 1)).push(Eff::DeadLetterLog(identity.id, identity.type_name@, type_name_spec::<M>(), reason, op))
 }
-#[cfg(not(feature = "test-utils"))]
+#[cfg(all(not(feature = "test-utils"), not(feature = "vx-nodl")))]
 pub open spec fn dl_log<M>(l: Seq<Eff>, identity: Identity, reason: DeadLetterReason, op: Seq<char>) -> Seq<Eff> {
     l.push(Eff::DeadLetterLog(identity.id, identity.type_name@, type_name_spec::<M>(), reason, op))
+}
+/// attribution variant `vx-nodl` (check: DESIGN 8.11): dead-letter effects are erased from the alphabet, in the shim and here
+/// alike, so that the SAME relations state everything about a call except its dead letters
+#[cfg(feature = "vx-nodl")]
+pub open spec fn dl_log<M>(l: Seq<Eff>, identity: Identity, reason: DeadLetterReason, op: Seq<char>) -> Seq<Eff> { l }
+
+// ---- the dead-letter facet of the log (C13), stated on its own so that a change is attributed to C13 exactly when THIS fails
+pub mod facets {
+    use vstd::prelude::*;
+    use super::Eff;
+    pub open spec fn is_dl(e: Eff) -> bool {
+        // 2 == cell_DEAD_LETTER_COUNT() (checked by facets_cell_is_dead_letter_count below; a broadcast lemma's module must not
+        // depend on functions of the module that uses it)
+        e is DeadLetterLog || (e matches Eff::FetchAdd(c, _) && c == 2)
+    }
+    /// the dead-letter effects of a log, in order
+    pub open spec fn proj_dl(l: Seq<Eff>) -> Seq<Eff>
+        decreases l.len()
+    {
+        if l.len() == 0 { Seq::empty() } else {
+            let p = proj_dl(l.drop_last());
+            if is_dl(l.last()) { p.push(l.last()) } else { p }
+        }
+    }
+    pub broadcast proof fn lemma_proj_dl_push(l: Seq<Eff>, e: Eff)
+        ensures #[trigger] proj_dl(l.push(e)) == (if is_dl(e) { proj_dl(l).push(e) } else { proj_dl(l) })
+    {
+        assert(l.push(e).drop_last() =~= l);
+        assert(l.push(e).last() == e);
+    }
+    pub broadcast proof fn lemma_take_push(l: Seq<Eff>, e: Eff, k: int)
+        requires 0 <= k <= l.len()
+        ensures #[trigger] l.push(e).take(k) == l.take(k)
+    { assert(l.push(e).take(k) =~= l.take(k)); }
+    pub broadcast proof fn lemma_take_all(l: Seq<Eff>)
+        ensures #[trigger] l.take(l.len() as int) == l
+    { assert(l.take(l.len() as int) =~= l); }
+}
+pub use facets::*;
+pub proof fn facets_cell_is_dead_letter_count() ensures cell_DEAD_LETTER_COUNT() == 2 {}
+broadcast use {facets::lemma_proj_dl_push, facets::lemma_take_push, facets::lemma_take_all};
+
+/// the dead letters one send-side call adds: none, or exactly one record (with its counter bump) for this actor, this
+/// message type, the given reason and operation
+pub open spec fn r_dl<M>(id: Identity, l0: Seq<Eff>, l1: Seq<Eff>, reason: Option<DeadLetterReason>, op: Seq<char>) -> bool {
+    match reason {
+        None => proj_dl(l1) =~= proj_dl(l0),
+        Some(rs) => proj_dl(l1) =~= dl_log::<M>(proj_dl(l0), id, rs, op),
+    }
+}
+/// exactly one dead letter per failed delivery, none per success: the reason each outcome of a tell / an ask calls for
+pub open spec fn dl_reason_tell(r: Result<()>) -> Option<DeadLetterReason> {
+    match r {
+        Err(Error::Send { .. }) => Some(DeadLetterReason::ActorStopped),
+        Err(Error::Timeout { .. }) => Some(DeadLetterReason::Timeout),
+        _ => None,
+    }
+}
+pub open spec fn dl_reason_ask<R>(r: Result<R>) -> Option<DeadLetterReason> {
+    match r {
+        Err(Error::Send { .. }) => Some(DeadLetterReason::ActorStopped),
+        Err(Error::Receive { .. }) => Some(DeadLetterReason::ReplyDropped),
+        Err(Error::Timeout { .. }) => Some(DeadLetterReason::Timeout),
+        _ => None,
+    }
 }
 
 /// R_tell / R_blocking_tell (op = "tell" | "blocking_tell"): exactly one enqueue attempt on the one mailbox,
